@@ -28,7 +28,7 @@ ASSUMPTIONS = ['structural equality ignores position attributes, the annotation 
                'original line containing the same call)']
 
 LIT = ('NEG', 'FSTR', 'TSUB', 'STAR', 'STARCALL', 'WALRUS', 'CHAIN', 'LAMDEF', 'DSTAR', 'SLICE', 'LNEW', 'LAPPEND', 'LPOP',
-       'LITAPPEND', 'SUBSTATE', 'EQ', 'BUILTIN', 'SETC', 'DICTC', 'GENEXP', 'ANNASSIGN', 'MATMUL', 'GLOBALNEG')
+       'LITAPPEND', 'SUBSTATE', 'EQ', 'BUILTIN', 'SETC', 'DICTC', 'GENEXP', 'ANNASSIGN', 'MATMUL', 'GLOBALNEG', 'NEGSUB')
 LIT_SRC = {
     'NEG': 'x = -%(k)d',
     'FSTR': 'x = f"{x!r:>{%(k)d}}{f\'{x}\'}"',
@@ -53,6 +53,7 @@ LIT_SRC = {
     'ANNASSIGN': 'y: int = x',
     'MATMUL': 'x = x if x else -x ** -2',
     'GLOBALNEG': 'x = (-1, -2.5, -3j, not x)',
+    'NEGSUB': 'stacks[-1] = stacks[-1] + [%(k)d]',
 }
 FEATS = [(), ('BUILTIN_FUNCTIONS',), ('EQUALITY_OPERATORS',), ('LISTS',), ('BUILTIN_FUNCTIONS', 'EQUALITY_OPERATORS', 'LISTS')]
 PLAN = {
@@ -84,7 +85,8 @@ def items(tier, seed):
     i += 1
   for combo in lit_programs(LITN[tier]):
     for fi in range(len(FEATS)):
-      for ctx in ('plain', 'while', 'if'):
+      # 'wrapped': the converted entity is a closure made by a functools.wraps decorator (it carries __wrapped__)
+      for ctx in ('plain', 'while', 'if') + (('wrapped',) if len(combo) == 1 else ()):
         yield ('lit', combo, ctx, fi, fi % 2 == 1)
 
 
@@ -108,7 +110,13 @@ def item_source(item):
       body = ['while c(%d):' % site()] + ['    ' + s for s in stm]
     else:
       body = ['if c(%d):' % site()] + ['    ' + s for s in stm] + ['else:', '    x = t(%d, x)' % site()]
-    src = 'def f(zo, d):\n    x = 2\n    l = [1]\n    stacks = [[], []]\n' + ''.join('    %s\n' % b for b in body) + '    return (0, x, l, stacks)\n'
+    if ctx == 'wrapped':
+      body = ['if c(%d):' % site()] + ['    ' + s for s in stm]
+      src = ('import functools\n\n\ndef _deco(fn):\n    @functools.wraps(fn)\n    def wrapper(zo, d):\n        x = fn(zo, d)\n        l = [1]\n'
+             '        stacks = [[], []]\n' + ''.join('        %s\n' % b for b in body) + '        return (0, x, l, stacks)\n    return wrapper\n\n\n'
+             '@_deco\ndef f(zo, d):\n    return 2\n')
+    else:
+      src = 'def f(zo, d):\n    x = 2\n    l = [1]\n    stacks = [[], []]\n' + ''.join('    %s\n' % b for b in body) + '    return (0, x, l, stacks)\n'
   if fut:
     src = 'from __future__ import annotations\n' + src
   return src, FEATS[item[-2]]
@@ -307,7 +315,7 @@ def check(item):
       where = '%s|%s' % (item[1], ps.skeleton(item[2]))
     sig = '%s|%s|feats=%s|future=%s' % (kind, where, '+'.join(feats), item[-1])
     if kind == 'convert-error':
-      sig = '%s|%s|feats=%s|%s' % (kind, where, '+'.join(feats), msg[:120])
+      sig = '%s|%s|feats=%s|%s' % (kind, where, '+'.join(feats), re.sub(r' at 0x[0-9a-f]+', '', msg)[:120])
     out.append(util.V(sig, '%s under features %s: %s\nprogram:\n%s' % (kind, feats, msg, src), item, source=src))
   return {'viol': out, 'n': {'evaluations': 1, 'programs': 1, 'source_map_lines_checked': nmapped},
           'outcome': src + repr(feats) + repr(sorted(v[0] for v in viol)), 'nontrivial': src + repr(feats),
